@@ -1,7 +1,8 @@
 (* C19: what the emulator does when the peer disappears or answers garbage, as an interpretation of the
    regenerated driver skeletons.  ManageError = print + os.Exit(1).
-   Peer faults:  FClose j   — the AMF closes the association on receiving the j-th uplink message (0-based)
-                              instead of answering: every later Write fails, every later Read returns EOF;
+   Peer faults:  FClose j n — the AMF closes the association after receiving the j-th uplink message (0-based);
+                              n downlink messages (still queued ones plus the part of its answer it did send) can
+                              still be read: every later Write fails at once, the (n+1)-th later Read returns EOF;
                  FGarbage j q — the AMF answers the j-th uplink message with bytes that are not an NGAP PDU;
                               q downlink messages are still queued in front of it (ReleasePDU never reads, so
                               the AMF's messages can pile up), i.e. the (q+1)-th Read after that Write returns the
@@ -10,15 +11,17 @@ From Coq Require Import List String Bool Arith.
 Require Import DriverTypes.
 Import ListNotations.
 
-Inductive fault := FNone | FClose (j:nat) | FGarbage (j q:nat).
-Record pst := { wcount : nat; closed : bool; gpending : option nat; lastbad : bool }.
-Definition pst0 := {| wcount := 0; closed := false; gpending := None; lastbad := false |}.
+Inductive fault := FNone | FClose (j n:nat) | FGarbage (j q:nat).
+(* closed: the peer has closed (writes fail); readable: how many more Reads succeed once it has *)
+Record pst := { wcount : nat; closed : bool; readable : nat; gpending : option nat; lastbad : bool }.
+Definition pst0 := {| wcount := 0; closed := false; readable := 0; gpending := None; lastbad := false |}.
 Inductive outcome := Completed | Exit1 (at_event : nat).       (* Completed = banner printed, exit status 0 *)
 
 Definition after_write (f:fault) (s:pst) : pst :=
   let k := wcount s in
   {| wcount := S k;
-     closed := match f with FClose j => Nat.eqb j k | _ => false end;
+     closed := match f with FClose j _ => Nat.eqb j k | _ => false end;
+     readable := match f with FClose _ n => n | _ => 0 end;
      gpending := match f with FGarbage j q => if Nat.eqb j k then Some q else gpending s | _ => gpending s end;
      lastbad := lastbad s |}.
 
@@ -31,16 +34,20 @@ Fixpoint run (f:fault) (evs:list event) (s:pst) (n:nat) : outcome :=
       if closed s then (if c then Exit1 n else run f r s (S n))
       else run f r (after_write f s) (S n)
   | Ev ER c _ :: r =>
-      if closed s then (if c then Exit1 n
-                        else run f r {| wcount := wcount s; closed := true; gpending := None; lastbad := true |} (S n))
+      if closed s then
+        match readable s with
+        | O => if c then Exit1 n
+               else run f r {| wcount := wcount s; closed := true; readable := 0; gpending := None; lastbad := true |} (S n)
+        | S m => run f r {| wcount := wcount s; closed := true; readable := m; gpending := None; lastbad := false |} (S n)
+        end
       else match gpending s with
-           | Some O => run f r {| wcount := wcount s; closed := false; gpending := None; lastbad := true |} (S n)
-           | Some (S q) => run f r {| wcount := wcount s; closed := false; gpending := Some q; lastbad := false |} (S n)
-           | None => run f r {| wcount := wcount s; closed := false; gpending := None; lastbad := false |} (S n)
+           | Some O => run f r {| wcount := wcount s; closed := false; readable := 0; gpending := None; lastbad := true |} (S n)
+           | Some (S q) => run f r {| wcount := wcount s; closed := false; readable := 0; gpending := Some q; lastbad := false |} (S n)
+           | None => run f r {| wcount := wcount s; closed := false; readable := 0; gpending := None; lastbad := false |} (S n)
            end
   | Ev ED c _ :: r =>
       if lastbad s then (if c then Exit1 n
-                         else run f r {| wcount := wcount s; closed := closed s; gpending := gpending s; lastbad := false |} (S n))
+                         else run f r {| wcount := wcount s; closed := closed s; readable := readable s; gpending := gpending s; lastbad := false |} (S n))
       else run f r s (S n)
   end.
 
@@ -48,12 +55,19 @@ Fixpoint run (f:fault) (evs:list event) (s:pst) (n:nat) : outcome :=
 Definition is_io (e:event) : bool := match e with Ev EW _ _ | Ev ER _ _ => true | _ => false end.
 Definition wr_checked (evs:list event) : bool :=
   forallb (fun e => match e with Ev EW c _ | Ev ER c _ => c | Unrecognised _ => false | _ => true end) evs.
-(* is there a Write or Read after the (j+1)-th Write? *)
-Fixpoint io_after_w (evs:list event) (j:nat) : bool :=
+(* once the peer has closed with n readable messages left: is there a Write, or an (n+1)-th Read? *)
+Fixpoint stops (evs:list event) (n:nat) : bool :=
   match evs with
   | [] => false
-  | Ev EW _ _ :: r => match j with O => existsb is_io r | S j' => io_after_w r j' end
-  | _ :: r => io_after_w r j
+  | Ev EW _ _ :: _ => true
+  | Ev ER _ _ :: r => match n with O => true | S m => stops r m end
+  | _ :: r => stops r n
+  end.
+Fixpoint io_after_w (evs:list event) (j n:nat) : bool :=
+  match evs with
+  | [] => false
+  | Ev EW _ _ :: r => match j with O => stops r n | S j' => io_after_w r j' n end
+  | _ :: r => io_after_w r j n
   end.
 (* after the (j+1)-th Write: the first Read is followed, before any other Read, by a checked Decoder call *)
 Fixpoint first_decode_checked (evs:list event) : bool :=       (* scanning after the Read *)
